@@ -110,12 +110,16 @@ def rule_comparison_pair(A, R, rule):
     the consumer of the per-dependency record (the configured comparison may depend on both)"""
     runs = all_runs(A)
     seen4 = set()
-    n4 = 0
+    site_bad = {}
     for (entry, label), run in runs:
         for v in run.by_kind("strategy_call"):
-            if v["method"] != "is_history_altered" or len(v["args"]) < 4 or (v["fn"], v["bb"]) in seen4:
+            if v["method"] != "is_history_altered" or len(v["args"]) < 4:
                 continue
-            seen4.add((v["fn"], v["bb"]))
+            # (the same site is seen in many partition runs, with operands of different precision: a site is judged by all of them)
+            argsig = (v["fn"], v["bb"], tuple(str(a_) for a_ in v["args"][:4]))
+            if argsig in seen4:
+                continue
+            seen4.add(argsig)
             ida, idb = id_syms(v["args"][0]), id_syms(v["args"][1])
             bad = []
             # the configured comparison may depend on both ids: each names a job of the current graph (the id of a job, or the id
@@ -149,10 +153,12 @@ def rule_comparison_pair(A, R, rule):
                                     # the comparison may depend on who consumes the value (a consumer reads only part of it)
                                     bad.append("%s value is a per-dependency record, but the consumer is not named (a fixed marker is passed "
                                                "as second id)" % which)
-            n4 += 1
-            R.ob(rule, "%s | the comparison is asked about the pair of jobs whose records it is given" % short(v["fn"]), not bad,
-                 detail="; ".join(sorted(set(bad))[:3]), site=A.site(v))
-    R.floor(rule, "call sites of the configured comparison with known operands", n4, 2)
+            ent = site_bad.setdefault((v["fn"], v["bb"]), [v, set()])
+            ent[1] |= set(bad)
+    for (fn_, bb_), (v, bad) in sorted(site_bad.items()):
+        R.ob(rule, "%s | the comparison is asked about the pair of jobs whose records it is given" % short(fn_), not bad,
+             detail="; ".join(sorted(bad)[:3]), site=A.site(v))
+    R.floor(rule, "call sites of the configured comparison with known operands", len(site_bad), 2)
 
 
 def rule_failure_cancels_considers(A, R, rule):
